@@ -2,14 +2,45 @@ NOTES = ("All checks are property-based / generated-input searches driven by Hyp
          "or complete enumeration of finite sub-spaces, against explicit oracles (refchem reference model, "
          "differentials, metamorphic relations). See DESIGN.md. Exit 2 = harness error, never a violation.")
 ENGINES = [
-    {'name': 'E3-tables', 'path': 'checks/c06.py', 'serves_properties': ['C06'],
-     'kind_free_text': 'complete unit-table enumeration per Hypothesis-generated substance vs first-principles factors'},
+    {'name': 'E1-bench', 'path': 'engines/bench.py', 'serves_properties': ['C01', 'C02', 'C03', 'C04', 'C07', 'C10', 'C11', 'C17', 'C19'],
+     'kind_free_text': 'Hypothesis RuleBasedStateMachine over the direct Container/Plate API with JSON-IR histories, state-aware generation, one monitor per property'},
+    {'name': 'E2-programs', 'path': 'engines/programs.py', 'serves_properties': ['C08', 'C09', 'C15', 'C17', 'C04', 'C03', 'C19'],
+     'kind_free_text': 'Hypothesis-generated recipe programs run through Recipe.bake, an eager fold of direct calls and a refchem ledger'},
+    {'name': 'E3-tables', 'path': 'checks/c06.py', 'serves_properties': ['C06', 'C13', 'C14'],
+     'kind_free_text': 'complete enumeration of finite tables / grammars x Hypothesis-generated parameters vs reference resolvers and parsers'},
+    {'name': 'E4-lifecycle', 'path': 'checks/c16.py', 'serves_properties': ['C16'],
+     'kind_free_text': 'bounded-exhaustive call sequences + RuleBasedStateMachine vs a reference protocol model'},
+    {'name': 'E5-crossconfig', 'path': 'checks/c18.py', 'serves_properties': ['C18'],
+     'kind_free_text': 'same generated script executed in worker processes under different pyplate.yaml storage configurations'},
 ]
+_BENCH_NOTE = ('Trusts refchem (first-principles sizes/concentrations), the derived rounding-tolerance calculus of DESIGN.md 3.1, '
+               'and Hypothesis as generator; bounds: plates <= 4x4 (quick) / 8x12 (thorough), histories <= 25 / 40 steps.')
 CHECKS = {
+    'C01': dict(engine='E1-bench', technique='stateful property-based testing (Hypothesis rule-based machine), conservation invariant over histories',
+                text='Every transfer executed along generated histories (all pairing forms, all unit families and prefixes, same-plate disjoint regions, list/stepped/rect slices) is checked for per-substance conservation over the distinct physical vessels and for identity of all unaddressed wells. Exploration over generated histories; no proof of absence beyond the explored sizes.',
+                note=_BENCH_NOTE, design_ref='DESIGN.md 4 C01'),
+    'C02': dict(engine='E1-bench', technique='stateful property-based testing vs sequential reference simulation; metamorphic chain relation',
+                text='Each successful feasible transfer is compared well by well and substance by substance with a sequential reference simulation of uniform aliquots of size q in the unit of q; chains of up to 30 transfers are compared with the equivalent single transfer.',
+                note=_BENCH_NOTE, design_ref='DESIGN.md 4 C02'),
+    'C03': dict(engine='E1-bench', technique='stateful property-based testing with reference feasibility margins and a dont-care rounding band; enumerated exact-capacity grid',
+                text='State invariant (no negative amounts/volume, volume <= capacity, finite) on every object returned along generated histories with requests on both sides of each feasibility boundary; accept/refuse verdicts from reference margins for constructor, transfer, fill_to; exact-capacity grid enumerated.',
+                note=_BENCH_NOTE, design_ref='DESIGN.md 4 C03'),
+    'C04': dict(engine='E1-bench', technique='stateful property-based testing: structural fingerprints of arguments before/after every call and of every pooled value after every step',
+                text='Fingerprints of all arguments (containers, plates, slices, substances, argument lists) are compared before and after every call including failing calls; every object ever returned is re-fingerprinted after every later step (aliasing). Recipe half: objects handed to a recipe are unchanged by uses/steps/bake.',
+                note=_BENCH_NOTE, design_ref='DESIGN.md 4 C04'),
     'C06': dict(engine='E3-tables', technique='property-based testing: exhaustive unit-table enumeration x Hypothesis-generated substances/amounts vs reference factors; algebraic laws',
                 text='Every (from,to) unit pair with every supported prefix is enumerated for each of many generated substances of each kind and compared with an independent first-principles factor; linearity, composition and round-trip are checked on the implementation directly; three default-density configurations. Exploration: substances/amounts are sampled, the unit table is complete.',
                 note='Trusts refchem factors (mass=mol*MW, volume=mass/density, activity=mass*SA) and IEEE double arithmetic (relative 1e-12).',
-                design_ref='DESIGN.md §4 C06'),
+                design_ref='DESIGN.md 4 C06'),
+    'C07': dict(engine='E1-bench', technique='stateful property-based differential testing: plate/slice operation vs the same Container operation per addressed well; one-step recipe variant',
+                text='Every plate/slice operation along generated histories is compared with the stand-alone container operation applied to copies of the addressed wells; unaddressed wells must be identical; the shape rule is checked on legal and illegal shape combinations; each operation is also run as a one-step recipe.',
+                note=_BENCH_NOTE + ' Oracle is the library itself at container granularity.', design_ref='DESIGN.md 4 C07'),
+    'C10': dict(engine='E1-bench', technique='stateful property-based testing: observer pseudo-operations interleaved with histories vs reference definitions',
+                text='Observers (volume attribute, get_volume, get_substances, get_concentration in 26 unit spellings, plate/slice get_volumes / get_moles / get_volume / get_substances) are evaluated on pooled objects after arbitrary histories and compared with refchem definitions rounded to the configured precision.',
+                note=_BENCH_NOTE, design_ref='DESIGN.md 4 C10'),
+    'C11': dict(engine='E1-bench', technique='stateful property-based testing vs closed-form reference (solvent amount s with N/(D0+s*d)=c)',
+                text='dilute and fill_to on containers reached by histories (binary, multi-component, enzyme bystanders, solvent absent) are checked for only-solvent-increases, reaching the target in the requested unit, and refusal on the wrong side of the boundary / capacity.',
+                note=_BENCH_NOTE, design_ref='DESIGN.md 4 C11'),
 }
 _P = 'check under construction in this session; not claimed until its check is registered'
-PENDING = {k: _P for k in ['C01','C02','C03','C04','C05','C07','C08','C09','C10','C11','C12','C13','C14','C15','C16','C17','C18','C19']}
+PENDING = {k: _P for k in ['C05','C08','C09','C12','C13','C14','C15','C16','C17','C18','C19']}
